@@ -67,7 +67,13 @@ CLAIMED.update({
  'C10': dict(text='The legacy reader\'s per-element access path ESmry::get -> loadData(vectList) runs on an in-memory summary data file with more than 1000 vectors: unformatted PARAMS records written by the real writer (probed value: arbitrary bit pattern) and formatted PARAMS text from a reference formatter of the published layout; for positions at the record-block boundaries and ends, in two ministeps, the value read must be the value written - i.e. the seek arithmetic equals the on-disk layout. (Found and fixed: strtof on an unterminated buffer in the formatted branch.)',
              note='ESmry object laid out by the harness; SMSPEC parsing, restart chains, ESMRY/ExtESmry and make_esmry_file, whole-PARAMS loadData() outside; positions are probed one path each (vector counts 1001/2500; thorough more)', design='4/C10'),
 })
+CLAIMED.update({
+ 'C09': dict(text='Summary.cpp is compiled as is, its static constructor builds the real keyword->function table `funs`, and 25 entries of the W/G/F x {O,W,G,L} x {P,I} x {R,T} families plus WWCT/WGOR/FWCT are evaluated on two real Opm::Well objects with symbolic rates, efficiency factors, step length and open/shut status: z3 proves each result equal to the defining expression (efficiency-weighted sum over flowing wells, sign split production/injection, liquid = oil + water, ratio definitions, total = rate x dt); SummaryState::update/update_well_var/update_group_var accumulate exactly the is_total keys and overwrite the others.',
+             note='doubles as reals; two wells under one group with accumulated efficiency factors as inputs (group-tree walk efac() outside); history vectors, voidage, calendar vectors, unit conversion on output and SummaryConfig expansion outside; generated keyword defaults WPAVE (read by PAvg()) defined in the harness', design='4/C09'),
+})
 NA = {
+ 'C04': 'Schedule::applyAction re-iterates the SCHEDULE section through the keyword-handler registry of a fully constructed Schedule and the property compares two complete Schedule objects built from decks. No kernel of it is separable from whole-Schedule construction (parser keyword tables, ~200 translation units, std::function handler dispatch, hundreds of millions of interpreted IR instructions per path) - out of reach for the bounded symbolic execution this framework implements; the separable ingredients are decided under C03 (snapshot copy-on-write) and C18 (condition algebra and run limits).',
+ 'C05': 'End-to-end relation: write restart file -> load -> rebuild Schedule. Writer (Aggregate*Data) and reader (rst::*, Schedule::load_rst) both consume complete Schedule/SummaryState/UDQ/Action objects, which cannot be constructed symbolically within reach. Its encodable ingredients are decided under other ids and not re-claimed: array I/O C07, unified-file rewind C08, unit factors C02, inverse Peaceman C06.',
 }
 ALL = ['C%02d' % i for i in range(1, 21)]
 def main():
